@@ -415,13 +415,20 @@ class CodecJob:
         shards = max(1, min(shards, len(cfgs)))
         try:
             load_module()   # dump the MIR once, before forking
-            if shards == 1:
-                parts = [self._run_shard(logdir, cfgs, 0)]
-            else:
-                import multiprocessing
-                ctx = multiprocessing.get_context("fork")
-                with ctx.Pool(shards) as pool:
-                    parts = pool.starmap(_shard_entry, [(self, logdir, cfgs[i::shards], i) for i in range(shards)])
+            import multiprocessing
+            ctx = multiprocessing.get_context("fork")
+            # wall-clock cap for the whole job: an interpreter that does not come back (e.g. a changed function that
+            # makes the path enumeration blow up) is INCONCLUSIVE, never a hang and never a pass
+            cap = float(os.environ.get("VERIF_X_CAP_S", "800" if self.tier == "quick" else "5400")) * float(os.environ.get("VERIF_TIMEOUT_SCALE", "1"))
+            pool = ctx.Pool(shards)
+            try:
+                parts = pool.starmap_async(_shard_entry, [(self, logdir, cfgs[i::shards], i) for i in range(shards)]).get(timeout=cap)
+                pool.close()
+            except multiprocessing.TimeoutError:
+                pool.terminate()
+                return [_res(self.name, status="INCONCLUSIVE", reason="the job did not finish within its %d s cap" % cap, wall=time.time() - t0)]
+            finally:
+                pool.join()
         except Unsupported as e:
             return [_res(self.name, status="INCONCLUSIVE", reason="MIR construct outside the interpreter: %s" % e, wall=time.time() - t0)]
         bad = [p["unsupported"] for p in parts if p.get("unsupported")]
@@ -553,6 +560,8 @@ def replay_case(art):
         if sum(v["cuts"]) > (1 << 24):
             return None, "stable prefix too large to build natively"
         args = ["advance", "0", ",".join(str(c) for c in v["cuts"]), str(v["count"])]
+        if v.get("pending"):
+            args += [str(v["pending"]["begin"]), str(v["pending"]["len"]), str(v["pending"]["tail"])]
     if v["side"] == "stream-growth":
         args = ["stream-growth", "@" + inpath, "none" if v.get("max_size") is None else str(v["max_size"]), "none" if v.get("limit") is None else str(v["limit"])]
     if v["side"] == "stream":
@@ -1688,15 +1697,22 @@ class AdvanceSlices(CodecJob):
         for n in range(0, top + 1):
             for lens in itertools.product((1, 2, 5) if n < 4 else (1, 3), repeat=n):
                 yield {"stable": list(lens)}
+                if n <= 2:
+                    # the same stable prefix followed by a slice that holds `begin` final bytes, a pending placeholder and a tail
+                    for begin in (0, 1, 3):
+                        yield {"stable": list(lens), "pending": {"begin": begin, "len": 2, "tail": 1}}
         yield {"stable": [70, 300, 64008]}
+        yield {"stable": [70, 300], "pending": {"begin": 100, "len": 2, "tail": 64008}}
         yield {"stable": [(1 << 63) - 1, (1 << 63) - 1, 7]}
 
     def bounds(self):
-        return ("ConsumingIovec::advance_slices with OwningIovec::stable_prefix() stubbed to return slices of the given lengths (every vector of <= 3 (quick) / 4 (thorough) lengths from {1,2,5}, plus [70,300,64008] and two slices of 2^63-1 bytes) "
-                "and a symbolic 64-bit count: the argument handed to GlobalDeque::consume_by_bytes equals min(count, total stable bytes), and no arithmetic overflow panic is reachable")
+        return ("ConsumingIovec::advance_slices with OwningIovec::stable_prefix() stubbed to return slices of the given lengths (every vector of <= 3 (quick) / 4 (thorough) lengths from {1,2,5}, plus [70,300,64008] and two slices of 2^63-1 bytes), "
+                "optionally followed by a slice holding 0/1/3/100 final bytes, a pending 2-byte placeholder (visible through the placeholder table's first() and total_size()) and a tail, "
+                "and a symbolic 64-bit count: the argument handed to GlobalDeque::consume_by_bytes equals min(count, bytes in the slices BEFORE the placeholder's slice), and no arithmetic overflow panic is reachable")
 
     def functions(self):
-        return ["owning_iovec::ConsumingIovec::advance_slices (MIR)", "stubs: OwningIovec::stable_prefix = a given list of slices; GlobalDeque::consume_by_bytes = records its argument; slice::Iter as a cursor"]
+        return ["owning_iovec::ConsumingIovec::advance_slices (MIR)", "stubs: OwningIovec::stable_prefix = a given list of slices; GlobalDeque::consume_by_bytes = records its argument; slice::Iter as a cursor; "
+                "SortedDeque::first on the placeholder table = the modelled pending placeholder (or None); OwningIovec::total_size / GlobalDeque::logical_size = the modelled totals (nothing consumed before the call)"]
 
     def _run_shard(self, logdir, cfgs, idx):
         import smtengine
@@ -1727,7 +1743,17 @@ class AdvanceSlices(CodecJob):
             raise Unsupported("cannot find advance_slices")
         st = State()
         # IoSlice values only matter through their length: represent each as a slice object of that length lazily
-        st.store["g:ciov"] = Adt("ConsumingIovec", {"stable": Slice([LenSlice(n) for n in lens], "stable"), "inner": Adt("OwningIovec", {"slices": Adt("GlobalDeque", {})})})
+        pend = cfg.get("pending")
+        total = sum(lens) + ((pend["begin"] + pend["len"] + pend["tail"]) if pend else 0)
+        first = Adt("None", [])
+        if pend:
+            st.store["g:backref0"] = Adt("tuple", [sum(lens) + pend["begin"] + pend["len"],
+                                                   Adt("Some", [Adt("BackrefInfo", {"slice_index": len(lens), "begin": pend["begin"], "len": pend["len"]})])])
+            first = Adt("Some", [Ref("g:backref0")])
+        # OwningIovec's fields in declaration order (slices, arena, backrefs), then the stub's own data
+        st.store["g:iov"] = Adt("OwningIovec", {"slices": Adt("GlobalDeque", {"logical": total}), "arena": Adt("ByteArena", {}), "backrefs": Adt("SortedDeque", {"first": first}),
+                                               "stable": Slice([LenSlice(n) for n in lens], "stable"), "total": total})
+        st.store["g:ciov"] = Adt("ConsumingIovec", {"iov_ref": Ref("g:iov")})
         count = Sym("count", 64)
         try:
             res = it.call(body[0], [Ref("g:ciov"), count], base=st)
@@ -1753,7 +1779,7 @@ class AdvanceSlices(CodecJob):
             else:
                 want = "(ite (bvult count %s) count %s)" % (bvconst(total, 64), bvconst(total, 64))
             alts.append(AND(c, "(not (= %s %s))" % (nt, want)))
-        tag = "adv-" + "_".join(map(str, lens))[:60]
+        tag = "adv-" + "_".join(map(str, lens))[:60] + ("-p%d" % cfg["pending"]["begin"] if cfg.get("pending") else "")
         a, ans, model, path = q.ask(tag, decls, [mir.disj(alts)]) if alts else ("unsat", None, "", "")
         ob = [("advance_slices over stable prefix %r: consumed == min(count, %d) for every count" % (lens[:6], total), a)]
         viol = []
@@ -1761,7 +1787,7 @@ class AdvanceSlices(CodecJob):
             mv = mir.model_values(model)
             cnt = int(mv.get("count", 0))
             viol.append({"desc": "advance_slices consumes a byte count other than min(count, stable bytes)", "side": "advance", "input": [], "cuts": list(lens), "methods": [], "limits": list(PROD),
-                         "count": cnt, "expected": {"kind": "ok", "bytes": [], "consumed": min(cnt, total)}, "smt2": path})
+                         "count": cnt, "pending": cfg.get("pending"), "expected": {"kind": "ok", "bytes": [], "consumed": min(cnt, total)}, "smt2": path})
         cov = [AND(*r.state.cond) for r in res]
         cov = ["true" if c is True else c for c in cov if c is not False]
         a2, _, _, _ = q.ask(tag + "-cov", decls, ["(not %s)" % mir.disj(cov)], get_model=False) if cov else ("sat", None, "", "")
